@@ -50,7 +50,11 @@ FoldV1(root, idx, sh, proof, k) ==
   IF k > Len(proof) THEN root
   ELSE IF Bit(idx, k - 1) = 1 \/ (k - 1) >= sh THEN FoldV1(Node(proof[k], root), idx, sh, proof, k + 1)
        ELSE FoldV1(Node(root, proof[k]), idx, sh, proof, k + 1)
-VerifyV1(n, idx, leaf, proof) == FoldV1(leaf, idx, BitLen(Xor(idx, n - 1)), proof, 1)
+\* (the length test was added by the repair of the v1 soundness defect: without it the proof of a later leaf, which
+\*  is shorter when the tree is not perfect, verifies for a challenged leaf of the left part, e.g. n = 3, i = 1, j = 2)
+VerifyV1(n, idx, leaf, proof) ==
+  LET sh == BitLen(Xor(idx, n - 1)) IN
+  IF Len(proof) < sh THEN "invalid" ELSE FoldV1(leaf, idx, sh, proof, 1)
 \* v2 (consensus/merkle.go storageProofRoot): a proof shorter than the subtree height is invalid
 RECURSIVE FoldBits(_, _, _, _, _)
 FoldBits(root, idx, proof, k, upto) ==
